@@ -83,6 +83,7 @@ def scheme_rules(ctx):
     schemes.list_push_rules(ctx)
     schemes.retire_list_pairing(ctx)
     schemes.deleter_rules(ctx)
+    schemes.noexcept_never_exhausts(ctx)
 
 
 def C01(ctx):
@@ -196,6 +197,7 @@ def C08(ctx):
     harris.erase_protocol(ctx)
     harris.insert_protocol(ctx)
     harris.find_protocol(ctx)
+    harris.find_info_paired(ctx, FILES["C08"])
     harris.iterator_bucket_agreement(ctx)
     # a traversal is the observable form of "unique keys, all present keys": the iterator rules that decide duplicates / skipped buckets
     harris.iterator_rules(ctx)
@@ -215,6 +217,7 @@ def C09(ctx):
     harris.ordering_predicates(ctx)
     harris.iterator_rules(ctx)
     harris.find_protocol(ctx)
+    harris.find_info_paired(ctx, FILES["C09"])
     harris.iterator_bucket_agreement(ctx)
     ctx.only_skip = ("HM.insert",)
     harris.erase_protocol(ctx)
